@@ -508,6 +508,33 @@ def r9_no_truncation_under_print_dup(ctx):
                witness="(binding [*print-dup* true *print-length* 1] (pr-str {:a 1 :b 2}))")
 
 
+@rule("C03.R10", floor=3)
+def r10_escaped_delimiter_never_terminates(ctx):
+    """Every printer of a double-quoted literal (strings, regex patterns, byte strings) writes an
+    embedded double quote as backslash + quote.  In each reader loop for such a literal, the
+    character after a backslash must therefore never reach the test that ends the literal: on the
+    branch taken for a backslash every path returns to the loop head (or raises) first -- in raw
+    (regex) mode as well, where the escape is kept as written."""
+    from ..pycfg import CFG
+    for fname in ("_read_str", "_read_fstr", "_read_byte_str"):
+        fn = ctx.fn(RD, fname)
+        g = CFG(fn)
+        heads = [nd for nd in g.nodes if nd.kind == "join" and isinstance(nd.ast, ast.While)]
+        bs = [nd for nd in g.nodes if nd.kind == "test" and P.un(nd.ast) in ("char == '\\\\'", "'\\\\' == char")]
+        term = [nd for nd in g.nodes if nd.kind == "test" and P.un(nd.ast) in ("char == '\"'", "'\"' == char")]
+        if not heads or not bs or not term:
+            raise AnalysisError(f"anchor vanished: {fname} loop / backslash test / terminator test")
+        bad = False
+        for b in bs:
+            starts = [m for m, lab in b.succ if lab is True]
+            r = g.reach(starts, avoid=heads, follow_exc=False)
+            if any(t.id in r for t in term):
+                bad = True
+        ctx.ob("C03.R10", f"{RD}::{fname}::the character after a backslash is never tested as the closing quote", RD, fn.lineno, not bad,
+               "" if not bad else f"in {fname} a path from the backslash branch falls through to the closing-quote test: an escaped double quote ends the literal (the printed form of a value containing a quote cannot be read back)",
+               witness='(read-string (pr-str (re-pattern "\\"")))')
+
+
 @rule("C03.R7", floor=1)
 def r7_regex_escape_symmetry(ctx):
     """The regex reader reads its literal raw (backslashes kept as written); the regex printer must
@@ -523,6 +550,8 @@ def r7_regex_escape_symmetry(ctx):
 
 
 SELFTEST = [
+    {"name": "raw literal ends at an escaped quote (the repaired defect)", "file": RD, "expect": "C03.R10",
+     "old": "                s.append(\"\\\\\")\n                s.append(char)\n                continue\n", "new": "                s.append(\"\\\\\")\n"},
     {"name": "map printer truncates under print-dup", "file": MAP, "expect": "C03.R9",
      "old": "    if not print_dup and isinstance(print_length, int):\n        items = list(islice(entry_reprs(), print_length + 1))", "new": "    if isinstance(print_length, int):\n        items = list(islice(entry_reprs(), print_length + 1))"},
     {"name": "twin: seq printer folds the print-dup test into the limit", "file": OBJ, "expect": None,
